@@ -224,3 +224,33 @@ package frontend
 //@   requires s != nil && s.ctx != nil && errorsNonNil(s.ctx) && c != nil
 //@   nosafety
 //@   ensures len(s.ctx.Errors) == old(len(s.ctx.Errors)) + 1 && errorsNonNil(s.ctx)
+
+// ---- C08: the parts of totality that are function-local -----------------------------------------------------------------
+// Errors reported by the ANTLR lexer and parser are collected (each SyntaxError call appends one non-nil error, which
+// parseCypher returns, see errorsReachTheCaller); the visitor stack is a stack: Enter pushes an entry of depth 0 for
+// the visitor, Exit pops the top entry and panics only if that entry's rule depth is not 0 (the precondition below).
+// That the parse-tree walk keeps this precondition for every input is not decidable here (it needs ANTLR's
+// walker and error recovery): bounded stand-in only.
+
+//@ import antlr "github.com/antlr4-go/antlr/v4"
+//@ func (s *Context) SyntaxError(recognizer antlr.Recognizer, offendingSymbol any, line int, column int, msg string, e antlr.RecognitionException)
+//@   requires s != nil && errorsNonNil(s)
+//@   modifies s.Errors, all(elems:error)
+//@   ensures collected: len(s.Errors) == old(len(s.Errors)) + 1 && errorsNonNil(s)
+//@   ensures appendOnly: forall i int :: 0 <= i && i < old(len(s.Errors)) ==> s.Errors[i] == old(s.Errors[i])
+
+//@ func (s *Context) Enter(visitor Visitor)
+//@   requires s != nil && visitor != nil
+//@   modifies s.visitorStack, all(elems:*github.com/specterops/dawgs/cypher/frontend.descentEntry), ctxOf[visitor], all(BaseVisitor.ctx), all(UpdatingNotAllowedClauseFilter.BaseVisitor.ctx), all(UpdatingClauseFilter.BaseVisitor.ctx), all(ExplicitProcedureInvocationFilter.BaseVisitor.ctx), all(ImplicitProcedureInvocationFilter.BaseVisitor.ctx), all(SpecifiedParametersFilter.BaseVisitor.ctx)
+//@   ensures pushed: len(s.visitorStack) == old(len(s.visitorStack)) + 1 && s.visitorStack[old(len(s.visitorStack))] != nil && fresh(s.visitorStack[old(len(s.visitorStack))])
+//@   ensures top: s.visitorStack[old(len(s.visitorStack))].visitor == visitor && s.visitorStack[old(len(s.visitorStack))].depth == 0
+//@   ensures below: forall i int :: 0 <= i && i < old(len(s.visitorStack)) ==> s.visitorStack[i] == old(s.visitorStack[i])
+//@   ensures wired: ctxOf[visitor] == s
+
+//@ func (s *Context) Exit() Visitor
+//@   requires s != nil
+//@   requires nonEmpty: len(s.visitorStack) >= 1 && s.visitorStack[len(s.visitorStack) - 1] != nil
+//@   requires balanced: s.visitorStack[len(s.visitorStack) - 1].depth == 0
+//@   modifies s.visitorStack
+//@   ensures popped: len(s.visitorStack) == old(len(s.visitorStack)) - 1 && result == old(s.visitorStack[len(s.visitorStack) - 1].visitor)
+//@   ensures below: forall i int :: 0 <= i && i < len(s.visitorStack) ==> s.visitorStack[i] == old(s.visitorStack[i])
